@@ -11,6 +11,7 @@ var mopKinds = []string{
 	"set", "set", "set", "set", "setI", "setI", "del", "delI", "delI", "delAbsent", "clear",
 	"get", "getI", "getAbsent", "first", "last", "seek", "seekI", "seekAbsent", "seekAbsent", "seekAbsent",
 	"itseek", "itseekI", "itseekAbsent", "next", "next", "next", "prev", "prev", "prev", "prev", "delseek", "delseek",
+	"staleProbe", "staleProbe",
 }
 
 func genMapCase(t *rapid.T) MapCase {
@@ -20,13 +21,13 @@ func genMapCase(t *rapid.T) MapCase {
 		Mag:  rapid.SampledFrom([]int{0, 0, 1, 1, 2}).Draw(t, "mag"),
 	}
 	gop := rapid.Custom(func(t *rapid.T) MOp {
-		return MOp{Kind: rapid.SampledFrom(mopKinds).Draw(t, "k"), A: rapid.IntRange(0, 600).Draw(t, "a"), B: rapid.IntRange(0, 1).Draw(t, "b")}
+		return MOp{Kind: rapid.SampledFrom(mopKinds).Draw(t, "k"), A: rapid.IntRange(0, 600).Draw(t, "a"), B: rapid.IntRange(0, 1).Draw(t, "b"), I: rapid.IntRange(0, 2).Draw(t, "slot")}
 	})
 	c.Ops = rapid.SliceOfN(gop, 0, 50).Draw(t, "ops")
 	if !c.Zero && rapid.IntRange(0, 2).Draw(t, "structured") > 0 {
 		// prefix: a few sets and a delete; suffix: seek to an absent inner key, then prev
 		var pre []MOp
-		for i := 0; i < 5; i++ {
+		for i, n := 0, rapid.SampledFrom([]int{5, 5, 12, 20, 40}).Draw(t, "prefill"); i < n; i++ {
 			pre = append(pre, MOp{Kind: "set", A: rapid.IntRange(0, 99).Draw(t, "pk")})
 		}
 		pre = append(pre, MOp{Kind: "delI", A: rapid.IntRange(0, 99).Draw(t, "pd")})
